@@ -114,6 +114,98 @@ def _last_axis_slice(sub: ast.Subscript) -> ast.Slice | None:
     return s if isinstance(s, ast.Slice) else None
 
 
+def _dedisp_block_window(prog: Program, res: Result, rd, fl) -> None:
+    """read_dedisp_block: the stream is read one spectrum per iteration from the first to the last sample any channel
+    needs, and every spectrum is stored into exactly the channels whose window [min_sample, max_sample) contains it."""
+    from ..normalform import canon
+    cfg = fl.cfg
+    key_c, key_w = "read_dedisp_block:coverage", "read_dedisp_block:window"
+    loops = [l for l in body_walk(rd.node) if isinstance(l, ast.For)]
+    if len(loops) != 1 or not isinstance(loops[0].target, ast.Name):
+        res.bad("R3", rd, rd.node, "read_dedisp_block no longer has a single sample loop", construct="loop", key=key_c)
+        return
+    lp = loops[0]
+    t = lp.target.id
+    it = lp.iter
+    if isinstance(it, ast.Call) and (dotted(it.func) or "").split(".")[-1] == "track" and it.args:
+        it = it.args[0]
+    if not (isinstance(it, ast.Call) and dotted(it.func) == "range" and 1 <= len(it.args) <= 2):
+        res.bad("R3", rd, lp, "the sample loop does not run over a range", key=key_c)
+        return
+    ln = cfg.node_for(lp)
+    lo = ast.Constant(0) if len(it.args) == 1 else it.args[0]
+    hi = it.args[-1]
+    # the comparison that selects the channels of this iteration: min_sample <= T < max_sample
+    sels = [c for c in calls_in_body(lp) if dotted(c.func) == "np.logical_and" and len(c.args) == 2]
+    stores = [s_ for s_ in body_walk(lp) if isinstance(s_, ast.Assign) and isinstance(s_.targets[0], ast.Subscript) and isinstance(s_.targets[0].slice, ast.Tuple)
+              and len(s_.targets[0].slice.elts) == 2]
+    counts = [s_ for s_ in body_walk(lp) if isinstance(s_, ast.AugAssign) and isinstance(s_.op, ast.Add) and isinstance(s_.target, ast.Subscript) and norm(s_.value) == "1"]
+    reads = [c for c in calls_in_body(lp) if dotted(c.func) == "self._file.cread"]
+    seeks = [c for c in calls_in_body(rd.node) if dotted(c.func) == "self._file.seek" and cfg.dominates(cfg.node_for(c), ln)]
+    if len(sels) != 1 or len(stores) != 1 or len(counts) != 1 or len(reads) != 1 or len(seeks) != 1:
+        res.bad("R3", rd, lp, f"unrecognised loop body: {len(sels)} window test(s), {len(stores)} store(s), {len(counts)} counter update(s), "
+                f"{len(reads)} read(s), {len(seeks)} positioning seek(s)", key=key_w)
+        return
+    sel, st, cnt, rdc, sk = sels[0], stores[0], counts[0], reads[0], seeks[0]
+    stop = {t}
+    mn = canon(fl.expand(ast.parse("min_sample", mode="eval").body, cfg.node_for(sel), stop=stop))
+    mx = canon(fl.expand(ast.parse("max_sample", mode="eval").body, cfg.node_for(sel), stop=stop))
+    # which expression plays the role of the current sample T?
+    T = None
+    for a_ in sel.args:
+        if isinstance(a_, ast.Compare) and len(a_.ops) == 1:
+            for side in (a_.left, a_.comparators[0]):
+                sx = fl.expand(side, cfg.node_for(sel), stop=stop)
+                if t in {n.id for n in ast.walk(sx) if isinstance(n, ast.Name)}:
+                    T = sx
+    if T is None:
+        res.bad("R3", rd, sel, "the window test does not involve the loop's current sample", key=key_w)
+        return
+    Tp = PolyEnv().poly(T)
+    rest = Tp - Poly.sym(t)
+    if t in rest.symbols():
+        res.bad("R3", rd, sel, f"the current sample `{Tp.canon()}` does not advance by one per iteration", key=key_c)
+        return
+    Tc = Tp.canon()
+    want_sel = {f"np.logical_and(cmp[Lt]({Tc}, {mx}), cmp[LtE]({mn}, {Tc}))", f"np.logical_and(cmp[LtE]({mn}, {Tc}), cmp[Lt]({Tc}, {mx}))"}
+    sel_c = canon(fl.expand(sel, cfg.node_for(sel), stop=stop))
+    idx = canon(fl.expand(st.targets[0].slice.elts[0], cfg.node_for(st), stop=stop))
+    forms = {f"np.flatnonzero({sel_c})", f"np.argwhere({sel_c}).flatten()", f"np.argwhere({sel_c}).ravel()", f"np.where({sel_c})[0]", f"np.nonzero({sel_c})[0]",
+             # contiguous hull of the selected channels (delays are monotone in frequency)
+             f"np.arange(np.argwhere({sel_c}).flatten().min(), 1 + np.argwhere({sel_c}).flatten().max(), dtype=int)"}
+    col = canon(fl.expand(st.targets[0].slice.elts[1], cfg.node_for(st), stop=stop))
+    val = canon(fl.expand(st.value, cfg.node_for(st), stop=stop))
+    cnt_t = canon(fl.expand(cnt.target, cfg.node_for(cnt), stop=stop))
+    rd_c = canon(fl.expand(rdc, cfg.node_for(rdc), stop=stop))
+    import re as _re
+    mcol = _re.fullmatch(r"(?P<ctr>[\w$@]+)\[(?P<i>.+)\]", col)
+    okw = sel_c in want_sel and idx in forms and mcol is not None and mcol.group("i") == idx and cnt_t == col and \
+        _re.sub(r"#\d+", "", val) == _re.sub(r"#\d+", "", f"{rd_c}[{idx}]") and _re.sub(r"#\d+", "", rd_c) == "self._file.cread(self.header.nchans)" and \
+        cfg.dominates(cfg.node_for(st), cfg.node_for(cnt)) and cfg.must_pass(ln, ln, {cfg.node_for(rdc)}) is not False
+    if okw and mcol is not None:
+        zero = [d_ for d_ in fl.defs if d_.var == mcol.group("ctr").split("@")[0] and d_.kind == "assign"]
+        okw = len(zero) == 1 and canon(zero[0].value) in (canon("np.zeros(self.header.nchans, dtype=int)"), canon("np.zeros(self.header.nchans, dtype=np.int64)"),
+                                                           canon("np.zeros(self.header.nchans, int)"))
+    (res.ok if okw else res.bad)("R3", rd, st, "every spectrum read is stored at the next free column of exactly the channels with min_sample <= t < max_sample" if okw else
+                                 "the per-channel window bookkeeping of read_dedisp_block changed", construct="window", key=key_w)
+    # coverage: the spectra read are t0 .. t1-1 with t0 = earliest, t1 = latest sample any channel needs, and the stream starts at t0
+    t0 = (rest + PolyEnv().poly(fl.expand(lo, ln, stop=stop)))
+    t1 = (rest + PolyEnv().poly(fl.expand(hi, ln, stop=stop)))
+    firsts = {canon(f) for f in (f"int(({mn}).min())".replace("'", "'"),)} if False else set()
+    def extreme(arr: str, which: str) -> set[str]:
+        return {f"int(({arr}).{which}())", f"({arr}).{which}()", f"int(np.{which}({arr}))", f"np.{which}({arr})"}
+    ok_first = t0.canon() in extreme(mn, "min")
+    ok_last = t1.canon() in extreme(mx, "max")
+    seek_p = PolyEnv().poly(fl.expand(sk.args[0], cfg.node_for(sk))) if sk.args else None
+    ok_seek = seek_p is not None and seek_p == t0 * Poly.sym("self.samp_stride") and len(sk.args) == 1 and not sk.keywords
+    if ok_first and ok_last and ok_seek:
+        res.ok("R3", rd, lp, "the loop reads one spectrum per iteration from min(min_sample) to max(max_sample), starting where the stream was positioned", key=key_c)
+    else:
+        res.bad("R3", rd, lp, f"the spectra read are [{t0.canon()}, {t1.canon()}) from a stream positioned at {seek_p.canon() if seek_p is not None else '?'}: "
+                f"a channel delayed by d samples needs source samples up to start + d + nsamps, so for any non-zero DM rows are left partly unfilled "
+                f"(expected the range [min(min_sample), max(max_sample)))", key=key_c)
+
+
 def run(prog: Program, res: Result, tier: str) -> None:
     prog.consulted.update({KMOD, PARAMS, HEADER, "sigpyproc.base", "sigpyproc.block", "sigpyproc.readers",
                            "sigpyproc.foldedcube", "sigpyproc.simulation.furby"})
@@ -219,13 +311,7 @@ def run(prog: Program, res: Result, tier: str) -> None:
             res.ok("R3", rd, ms[0], "channel c's window starts at source sample start + delay_c", key=key)
         else:
             res.bad("R3", rd, ms[0], f"first source sample per channel is {p.canon()}, expected start + delays from get_dmdelays(dm)", key=key)
-        # each output column k of channel c receives source sample min_sample[c] + k
-        body = norm(rd.node)
-        okw = "data[chans_slice, samples_read[chans_slice]] = sample_data[chans_slice]" in body and "samples_read[chans_slice] += 1" in body \
-            and "np.logical_and(max_sample > samples_offset, min_sample <= samples_offset)" in body
-        key2 = "read_dedisp_block:window"
-        (res.ok if okw else res.bad)("R3", rd, rd.node, "samples are appended per channel while min_sample <= t < max_sample" if okw else
-                                     "the per-channel window bookkeeping of read_dedisp_block changed", construct="window", key=key2)
+        _dedisp_block_window(prog, res, rd, fl)
     else:
         raise AnalysisError("read_dedisp_block: min_sample not found")
     fc = prog.func("sigpyproc.foldedcube", "FoldedData._get_dmdelays")
@@ -419,6 +505,12 @@ BL = "sigpyproc/block.py"
 K = "sigpyproc/core/kernels.py"
 P = "sigpyproc/params.py"
 MUTANTS = [
+    {"id": "c09-revert-F27", "file": "sigpyproc/readers.py", "expect": "C09.R3",
+     "old": "            range(first_sample, last_sample),", "new": "            range(start, start + nsamps),"},
+    {"id": "c09-F27-seek-start", "file": "sigpyproc/readers.py", "expect": "C09.R3",
+     "old": "        self._file.seek(first_sample * self.samp_stride)", "new": "        self._file.seek(start * self.samp_stride)"},
+    {"id": "c09-window-closed", "file": "sigpyproc/readers.py", "expect": "C09.R3",
+     "old": "                    max_sample > samples_offset,", "new": "                    max_sample >= samples_offset,"},
     {"id": "c09-dedisp-unnegated", "file": BL, "expect": "C09.R3",
      "old": "            new_ar = kernels.roll_block(self.data, -delays)", "new": "            new_ar = kernels.roll_block(self.data, delays)"},
     {"id": "c09-valid-unnegated", "file": BL, "expect": "C09.R3",
